@@ -42,6 +42,10 @@ CALLEE_BENIGN = {
     "std::string::String::push": "capacity overflow only: memory-exhaustion class",
     "std::vec::Vec::<T>::with_capacity": "capacity overflow only (argument is a length of an in-memory collection): memory-exhaustion class",
     "std::str::<impl str>::repeat": "capacity overflow only (count is an indent / nesting width): memory-exhaustion class",
+    "std::vec::Vec::<T, A>::extend_from_slice": "capacity overflow only: memory-exhaustion class",
+    "std::vec::Vec::<T, A>::append": "capacity overflow only: memory-exhaustion class",
+    "std::vec::Vec::<T, A>::reserve": "capacity overflow only: memory-exhaustion class",
+    "std::string::String::reserve": "capacity overflow only: memory-exhaustion class",
     "std::iter::Iterator::enumerate": "index overflow after usize::MAX items: infeasible",
     "<std::iter::Enumerate<I> as std::iter::Iterator>::next": "index overflow after usize::MAX items: infeasible",
     "std::iter::Iterator::sum": "documented panic is integer overflow; all uses here sum f32",
@@ -223,6 +227,10 @@ def panic_sites(prog, chk, reach):
             w = D.range_guard(body, s.bb, s.term)
             if w:
                 why = "D7 " + w
+        if why is None and s.kind == "doc-panics" and "::sort" in s.what:
+            w = D.total_order_comparator(prog, body, s.term)
+            if w:
+                why = "D8 " + w
         if why is None and s.kind == "assert:BoundsCheck":
             w = D.bounds_guard(body, s.bb, s.term)
             if w:
@@ -252,6 +260,12 @@ def panic_sites(prog, chk, reach):
                 for op_ in sorted(prog.owners_of(body.path)):
                     e2 = allow.get((op_, s.kind, s.what)) or allow.get((op_, s.kind, s.decl)) or allow.get((op_, s.kind, ""))
                     if e2 is not None and e2["used"] < e2["count"]:
+                        ent = e2
+                        break
+            if ent is None or (ent["used"] >= ent["count"] and s.line not in ent.get("lines", ())):
+                # the reviewed function no longer exists: its body moved, and the reviewed site (same operation) with it
+                for (f2, k2, c2), e2 in sorted(allow.items()):
+                    if k2 == s.kind and c2 in (s.what, s.decl) and e2["used"] < e2["count"] and not prog.by_path.get(f2) and not any(x.startswith(f2 + "::{") for x in prog.by_path):
                         ent = e2
                         break
             if ent is not None and (s.line in ent.setdefault("lines", set()) or ent["used"] < ent["count"]):
@@ -294,10 +308,17 @@ def limit_bounded_counter(body, t):
     pl = op_place(var)
     if pl is None:
         return None
+    # the sum itself (`let passes = idx + 1; if passes > limit`) counts as the counter too
+    cp = op_place(t.get("cond"))
+    sums = {cp[0]} if cp is not None and cp[1] == (".1",) else set()
     for bb, i, s in body.all_stmts():
         rv = s.get("rv")
         if rv and rv["k"] == "binop" and rv["op"] in ("Gt", "Ge", "Lt", "Le"):
             sides = [rv["a"], rv["b"]]
+            for x in sides:
+                ch = body.chase(x)
+                if ch[0] == "place" and ch[1][0] in sums and ch[1][1] in ((), (".0",)) and any(_chases_to_limit(body, y) or (op_place(y) or (0, ()))[1][-1:] and op_place(y)[1][-1].endswith("_limit") for y in sides if y is not x):
+                    return "u32 sum `x + 1` compared with a configured limit in the same function before the next increment (bounded by limit + 1 <= default + 1)"
             lim = [x for x in sides if (op_place(x) or (0, ()))[1][-1:] and (op_place(x)[1][-1].endswith("_limit"))]
             if not lim:
                 lim = [x for x in sides if _chases_to_limit(body, x)]
